@@ -145,7 +145,7 @@ def check_c19(prop, tier, seed, sd, t0):
 # probe-based checks: a Go probe runs the real engine on generated inputs and logs
 # (input, real result); TLC evaluates the specification's value for every line
 
-def probe_check(prop, tier, seed, sd, t0, probe_pkg, mc, trace_module, trace_cfg, extra_modules, prefix, rule, assumptions, unit='ev":"q"', extra_cov=None, selfcontained=False, boundaries=('"ev":"corpus"', '"ev":"reset"'), note_prefix=None):
+def probe_check(prop, tier, seed, sd, t0, probe_pkg, mc, trace_module, trace_cfg, extra_modules, prefix, rule, assumptions, unit='ev":"q"', extra_cov=None, selfcontained=False, boundaries=('"ev":"corpus"', '"ev":"reset"'), note_prefix=None, chunk=4000):
     mcs = []
     for name, module, cfg, timeout in mc:
         r = vlib.model_check(sd, name, module, cfg, timeout)
@@ -169,7 +169,7 @@ def probe_check(prop, tier, seed, sd, t0, probe_pkg, mc, trace_module, trace_cfg
     lines = open(tf).read().splitlines()
     chunks, cur = [], []
     for l in lines:
-        if (selfcontained or any(b in l for b in boundaries)) and len(cur) >= 4000:
+        if (selfcontained or any(b in l for b in boundaries)) and len(cur) >= chunk:
             chunks.append(cur)
             cur = []
         cur.append(l)
@@ -488,7 +488,7 @@ def check_c16(prop, tier, seed, sd, t0):
                        'separate AllMatches run) for every line, so every setting is compared with the same setting-independent value; distinct = distinct logged lines',
                        ['matched documents are taken from an AllMatches run of the same query (C07 decides that set)', 'floats are compared in thousandths (avg / weighted avg / quantiles)',
                         'the cardinality sketch is exact at these sizes (<= 5 distinct values)', 'bucket aggregations consume a document once per value in the bucket (transcribed from range.go/terms.go)'],
-                       unit='"ev":"agg"', selfcontained=True)
+                       unit='"ev":"agg', selfcontained=True, chunk=700 if tier == 'quick' else 6000)
 
 
 def check_c08(prop, tier, seed, sd, t0):
